@@ -45,21 +45,21 @@ FIRST_GUARD = """                if (
 class Last"""
 
 # ------------------------------------------------------------------------------------------ C08
-mutant("c08-first-zero-ge", "C08", (A, FIRST_GUARD, FIRST_GUARD.replace("activation_degree > 0.0", "activation_degree >= 0.0")), "G/First.activate")
-mutant("c08-first-threshold-gt", "C08", (A, FIRST_GUARD, FIRST_GUARD.replace(">= self.threshold", "> self.threshold")), "G/First.activate")
-mutant("c08-first-count-le", "C08", (A, FIRST_GUARD, FIRST_GUARD.replace("activated < self.rules", "activated <= self.rules")), "G/First.activate")
+mutant("c08-first-zero-ge", "C08", (A, FIRST_GUARD, FIRST_GUARD.replace("activation_degree > 0.0", "activation_degree >= 0.0")), "A-sem/First.activate/selection")
+mutant("c08-first-threshold-gt", "C08", (A, FIRST_GUARD, FIRST_GUARD.replace(">= self.threshold", "> self.threshold")), "A-sem/First.activate/selection")
+mutant("c08-first-count-le", "C08", (A, FIRST_GUARD, FIRST_GUARD.replace("activated < self.rules", "activated <= self.rules")), "A-sem/First.activate/selection")
 mutant("c08-first-no-count", "C08", (A, FIRST_GUARD, FIRST_GUARD.replace("                    activated += 1\n", "")), "")
-mutant("c08-first-drop-threshold", "C08", (A, FIRST_GUARD, FIRST_GUARD.replace("                    and activation_degree >= self.threshold\n", "")), "G/First.activate")
-mutant("c08-last-not-reversed", "C08", (A, "for rule in reversed(rule_block.rules):", "for rule in rule_block.rules:"), "DIR/Last.activate")
-mutant("c08-first-reversed", "C08", (A, "for rule in iter(rule_block.rules):", "for rule in reversed(rule_block.rules):"), "DIR/First.activate")
-mutant("c08-highest-sign", "C08", (A, "heapq.heappush(activate, (-activation_degree, index))", "heapq.heappush(activate, (activation_degree, index))"), "K1/Highest.activate")
-mutant("c08-lowest-sign", "C08", (A, "heapq.heappush(activate, (activation_degree, index))", "heapq.heappush(activate, (-activation_degree, index))"), "K1/Lowest.activate")
-mutant("c08-highest-key-swapped", "C08", (A, "heapq.heappush(activate, (-activation_degree, index))", "heapq.heappush(activate, (index, -activation_degree))"), "K1/Highest.activate")
+mutant("c08-first-drop-threshold", "C08", (A, FIRST_GUARD, FIRST_GUARD.replace("                    and activation_degree >= self.threshold\n", "")), "A-sem/First.activate/selection")
+mutant("c08-last-not-reversed", "C08", (A, "for rule in reversed(rule_block.rules):", "for rule in rule_block.rules:"), "A-sem/Last.activate/selection")
+mutant("c08-first-reversed", "C08", (A, "for rule in iter(rule_block.rules):", "for rule in reversed(rule_block.rules):"), "A-sem/First.activate/selection")
+mutant("c08-highest-sign", "C08", (A, "heapq.heappush(activate, (-activation_degree, index))", "heapq.heappush(activate, (activation_degree, index))"), "A-sem/Highest.activate/selection")
+mutant("c08-lowest-sign", "C08", (A, "heapq.heappush(activate, (activation_degree, index))", "heapq.heappush(activate, (-activation_degree, index))"), "A-sem/Lowest.activate/selection")
+mutant("c08-highest-key-swapped", "C08", (A, "heapq.heappush(activate, (-activation_degree, index))", "heapq.heappush(activate, (index, -activation_degree))"), "A-sem/Highest.activate/no-internal-error")
 mutant("c08-highest-zero-ge", "C08", (A, """                if activation_degree > 0.0:
                     heapq.heappush(activate, (-activation_degree, index))""", """                if activation_degree >= 0.0:
-                    heapq.heappush(activate, (-activation_degree, index))"""), "G/Highest.activate")
+                    heapq.heappush(activate, (-activation_degree, index))"""), "A-sem/Highest.activate/selection")
 mutant("c08-comparator-swap", "C08", (A, "            LessThan: operator.lt,\n            LessThanOrEqualTo: operator.le,", "            LessThan: operator.le,\n            LessThanOrEqualTo: operator.lt,"), "T3/")
-mutant("c08-threshold-args-swapped", "C08", (A, "self.comparator.operator(activation_degree, self.threshold)", "self.comparator.operator(self.threshold, activation_degree)"), "G/Threshold.activate")
+mutant("c08-threshold-args-swapped", "C08", (A, "self.comparator.operator(activation_degree, self.threshold)", "self.comparator.operator(self.threshold, activation_degree)"), "A-sem/Threshold.activate/selection")
 mutant("c08-threshold-no-assert", "C08", (A, """                self.assert_is_not_vector(activation_degree)
                 if self.comparator.operator""", """                if self.comparator.operator"""), "O-vec/Threshold.activate")
 mutant("c08-general-no-deactivate", ["C08", "C01"], (A, """        for rule in rule_block.rules:
@@ -70,7 +70,7 @@ mutant("c08-general-no-deactivate", ["C08", "C01"], (A, """        for rule in r
             if rule.is_loaded():
                 rule.activate_with(conjunction, disjunction)
                 rule.trigger(implication)"""), "O-dea/General.activate")
-mutant("c08-proportional-const-divisor", "C08", (A, "rule.activation_degree /= sum_degrees", "rule.activation_degree /= len(activate)"), "G/Proportional.activate")
+mutant("c08-proportional-const-divisor", "C08", (A, "rule.activation_degree /= sum_degrees", "rule.activation_degree /= len(activate)"), "A-sem/Proportional.activate/selection")
 mutant("c08-proportional-sum-all", "C08", (A, """                if activation_degree > 0.0:
                     activate.append(rule)
                     sum_degrees += activation_degree""", """                sum_degrees += activation_degree
@@ -97,7 +97,7 @@ class Proportional""", """        activated = 0
             activated += 1
 
 
-class Proportional"""), "G/Lowest.activate/pop-loop")
+class Proportional"""), "A-sem/Lowest.activate/selection")
 
 FIRST_EQ = FIRST_GUARD.replace("""                if (
                     activated < self.rules
@@ -139,7 +139,7 @@ mutant("c08-lowest-index-among-loaded", ["C08"], (A, LOWEST_LOOP, """        for
             self.assert_is_not_vector(activation_degree)
             if activation_degree > 0.0:
                 heapq.heappush(activate, (activation_degree, index))
-"""), "K1")
+"""), "A-sem/Lowest.activate/selection")
 mutant("c08-lowest-deactivate-only-loaded", ["C08", "C13"], (A, LOWEST_LOOP, """        for index, rule in enumerate(rule_block.rules):
             if rule.is_loaded():
                 rule.deactivate()
@@ -174,7 +174,87 @@ mutant("c19-defuzzifier-under-terms", "C19", (E, """            if not variable.
                 errors.append("""), "C1/Engine.is_ready/defuzzifier")
 mutant("c19-aggregation-needs-weighted", "C19", (E, "if not variable.aggregation and isinstance(variable.defuzzifier, IntegralDefuzzifier):", "if not variable.aggregation and isinstance(variable.defuzzifier, WeightedDefuzzifier):"), "C1/Engine.is_ready/aggregation")
 mutant("c19-implication-tests-conjunction", "C19", (E, "if implication_needed and not rule_block.implication:", "if implication_needed and not rule_block.conjunction:"), "C1/Engine.is_ready/implication")
+mutant("c19-disjunction-elif", "C19", (E, "            if disjunction_needed and not rule_block.disjunction:", "            elif disjunction_needed and not rule_block.disjunction:"), "C1/Engine.is_ready/disjunction")
+mutant("c19-always-ready", "C19", (E, "        return not errors\n\n    def infer_type", "        return True\n\n    def infer_type"), "C1/Engine.is_ready/result")
+mutant("c19-implication-first-conclusion", "C19", (E, "                    for consequent in rule.consequent.conclusions:\n                        mamdani_consequents +=", "                    for consequent in rule.consequent.conclusions[:1]:\n                        mamdani_consequents +="), "C1/Engine.is_ready/implication")
+mutant("c19-second-output-skipped", "C19", (E, "        for variable in self.output_variables:\n            if not variable.terms:\n                errors.append(f\"Output variable", "        for variable in self.output_variables[:1]:\n            if not variable.terms:\n                errors.append(f\"Output variable"), "C1/Engine.is_ready/defuzzifier")
+equivalent("c19-eq-spurious-note", "C19", (E, "        if not self.input_variables:\n            errors.append(", "        if len(self.input_variables) == 0:\n            errors.append("))
 equivalent("c19-eq-flattened", "C19", (E, "            if conjunction_needed and not rule_block.conjunction:\n                errors.append(", "            missing_c = not rule_block.conjunction\n            if missing_c and conjunction_needed:\n                errors.append("))
+
+# ------------------------------------------------------------------------------------------ C08 A-sem (interpretation on model rule blocks)
+mutant("c08-highest-ties-reversed", "C08", (A, "heapq.heappush(activate, (-activation_degree, index))", "heapq.heappush(activate, (-activation_degree, -index))"), "A-sem/Highest.activate/selection")
+mutant("c08-highest-ties-by-sort", "C08", (A, """        activated = 0
+        while activate and activated < self.rules:
+            index = heapq.heappop(activate)[1]
+            rule_block.rules[index].trigger(implication)
+            activated += 1
+
+
+class Lowest""", """        activated = 0
+        for _, index in sorted(activate, reverse=True, key=lambda entry: -entry[0]):
+            if activated >= self.rules:
+                break
+            rule_block.rules[index].trigger(implication)
+            activated += 1
+
+
+class Lowest"""), "A-sem/Highest.activate/selection")
+mutant("c08-general-skips-disabled-degree", "C08", (A, """            rule.deactivate()
+            if rule.is_loaded():
+                rule.activate_with(conjunction, disjunction)
+                rule.trigger(implication)""", """            rule.deactivate()
+            if rule.is_loaded() and rule.enabled:
+                rule.activate_with(conjunction, disjunction)
+                rule.trigger(implication)"""), "A-sem/General.activate/degrees")
+mutant("c08-lowest-assert-after-compare", "C08", (A, """                self.assert_is_not_vector(activation_degree)
+                if activation_degree > 0.0:
+                    heapq.heappush(activate, (activation_degree, index))""", """                if activation_degree > 0.0:
+                    self.assert_is_not_vector(activation_degree)
+                    heapq.heappush(activate, (activation_degree, index))"""), "O-vec/Lowest.activate/assert_is_not_vector")
+mutant("c08-proportional-normalises-in-first-loop", "C08", (A, """                if activation_degree > 0.0:
+                    activate.append(rule)
+                    sum_degrees += activation_degree
+
+        for rule in activate:
+            rule.activation_degree /= sum_degrees
+            rule.trigger(implication)""", """                if activation_degree > 0.0:
+                    activate.append(rule)
+                    sum_degrees += activation_degree
+                    rule.activation_degree /= sum_degrees
+
+        for rule in activate:
+            rule.trigger(implication)"""), "A-sem/Proportional.activate/selection")
+mutant("c08-threshold-previous-degree", "C08", (A, """                if self.comparator.operator(activation_degree, self.threshold):
+                    rule.trigger(implication)""", """                if self.comparator.operator(activation_degree, self.threshold):
+                    rule.trigger(implication)
+                    self.threshold = activation_degree"""), "A-sem/Threshold.activate/selection")
+mutant("c08-first-counts-enabled-only", "C08", (A, """                    rule.trigger(implication)
+                    activated += 1
+
+
+class Last""", """                    rule.trigger(implication)
+                    activated += rule.enabled
+
+
+class Last"""), "A-sem/First.activate/selection")
+equivalent("c08-eq-highest-sorted", "C08", (A, """        activated = 0
+        while activate and activated < self.rules:
+            index = heapq.heappop(activate)[1]
+            rule_block.rules[index].trigger(implication)
+            activated += 1
+
+
+class Lowest""", """        for _, index in sorted(activate)[: max(self.rules, 0)]:
+            rule_block.rules[index].trigger(implication)
+
+
+class Lowest"""))
+equivalent("c08-eq-proportional-total-first", "C08", (A, """        for rule in activate:
+            rule.activation_degree /= sum_degrees
+            rule.trigger(implication)""", """        total = sum(rule.activation_degree for rule in activate)
+        for rule in activate:
+            rule.activation_degree = rule.activation_degree / total
+            rule.trigger(implication)"""))
 
 # ------------------------------------------------------------------------------------------ C20
 CTX = """        rollback_settings = vars(self).copy()
@@ -194,14 +274,14 @@ mutant("c20-snapshot-after-apply", "C20", (L, CTX, """        for key, value in 
         finally:
             for key, value in context_settings.items():
                 setattr(self, key, rollback_settings[key])
-"""), "Y2/")
+"""), "Y-sem/Settings.context")
 mutant("c20-yield-outside-try", "C20", (L, CTX, """        rollback_settings = vars(self).copy()
         for key, value in context_settings.items():
             setattr(self, key, value)
         yield
         for key, value in context_settings.items():
             setattr(self, key, rollback_settings[key])
-"""), "Y3/Settings.context/restore-exception")
+"""), "Y-sem/Settings.context/restored-on-exception")
 mutant("c20-finally-to-except", "C20", (L, CTX, """        rollback_settings = vars(self).copy()
         for key, value in context_settings.items():
             setattr(self, key, value)
@@ -211,11 +291,11 @@ mutant("c20-finally-to-except", "C20", (L, CTX, """        rollback_settings = v
             for key, value in context_settings.items():
                 setattr(self, key, rollback_settings[key])
             raise
-"""), "Y3/Settings.context/restore-normal")
+"""), "Y-sem/Settings.context/restored-on-normal-exit")
 mutant("c20-restore-whole-snapshot", "C20", (L, CTX, CTX.replace("""            for key, value in context_settings.items():
                 setattr(self, key, rollback_settings[key])""", """            for key, value in rollback_settings.items():
-                setattr(self, key, rollback_settings[key])""")), "Y4/Settings.context/keys")
-mutant("c20-restore-new-value", "C20", (L, CTX, CTX.replace("setattr(self, key, rollback_settings[key])", "setattr(self, key, value)")), "Y4/Settings.context/restore-value")
+                setattr(self, key, rollback_settings[key])""")), "Y-sem/Settings.context/others-untouched")
+mutant("c20-restore-new-value", "C20", (L, CTX, CTX.replace("setattr(self, key, rollback_settings[key])", "setattr(self, key, value)")), "Y-sem/Settings.context/restored")
 mutant("c20-no-contextmanager", "C20", (L, "    @contextmanager\n    def context(", "    def context("), "Y1/")
 mutant("c20-param-without-attribute", "C20", (L, """        if "factory_manager" in context_settings:
             context_settings["_factory_manager"] = context_settings.pop("factory_manager")
@@ -336,7 +416,7 @@ class First""", """                rule.trigger(implication)
                 rule.activate_with(conjunction, disjunction)
 
 
-class First"""), "O-seq/General.activate/trigger")
+class First"""), "A-sem/General.activate/selection")
 mutant("c01-append-to-first-conclusion-variable", ["C01", "C07"], (R, "                    proposition.variable.fuzzy.terms.append(activated_term)", "                    self.conclusions[0].variable.fuzzy.terms.append(activated_term)"), "P5/Consequent.modify/target")
 mutant("c01-fold-seed-one", "C01", (T, """        y = scalar(0.0)
         for term in self.terms:
@@ -496,12 +576,14 @@ mutant("c17-single-root-check-dropped", ["C17", "C16"], (T, """        if len(st
 """, """        if len(stack) < 1:
             raise SyntaxError(f"invalid formula: '{formula}'")
 """), "PD2/Function.parse/single-root")
-mutant("c17-own-x-check-dropped", "C17", (T, """        if "x" in self.variables:
+# (dropping the dedicated own-`x` check is behaviour-preserving as far as the property goes: the clash test that follows rejects an own
+#  variable named x with the same ValueError; the shape rule of round 1 reported it, the interpretation of W3 rightly does not)
+equivalent("c17-own-x-check-dropped", "C17", (T, """        if "x" in self.variables:
             raise ValueError(
                 "variable 'x' is reserved for internal use of Function term, please "
                 f"remove it from the map of variables: {self.variables}"
             )
-""", ""), "W3/Function.membership/own-x")
+""", ""))
 mutant("c17-own-variables-not-merged", "C17", (T, "        engine_variables.update(self.variables)\n", ""), "W3/Function.membership/environment")
 mutant("c17-duplicate-registration", "C17", (F, """                "fabs",
                 "Absolute",""", """                "abs",
@@ -1290,7 +1372,7 @@ BOUNDED = """                if activation_degree > 0.0:
 
 
 class Lowest"""
-mutant("seed-c08-bounded-heap-wrong-ties", "C08", (A, HIGHEST_BODY, BOUNDED.replace("KEYIDX", "index").replace("SORTIDX", "item[1]")), "K1/Highest.activate/heap-key")
+mutant("seed-c08-bounded-heap-wrong-ties", "C08", (A, HIGHEST_BODY, BOUNDED.replace("KEYIDX", "index").replace("SORTIDX", "item[1]")), "A-sem/Highest.activate/selection")
 equivalent("seed-c08-eq-bounded-heap-correct", "C08", (A, HIGHEST_BODY, BOUNDED.replace("KEYIDX", "-index").replace("SORTIDX", "-item[1]")))
 mutant("seed-c07-break-on-disabled", ["C07", "C01"], (R, """            if proposition.variable.enabled:
                 for hedge in reversed(proposition.hedges):""", """            if not proposition.variable.enabled:
@@ -1333,13 +1415,13 @@ class Last""", """                    rule.trigger(implication)
                         break
 
 
-class Last"""), "O-all/First.activate")
+class Last"""), "A-sem/First.activate/degrees")
 mutant("c14-split-every-colon", "C14", (I, 'parts = Op.strip_comments(fll).split(":", maxsplit=1)', 'parts = Op.strip_comments(fll).split(":")'), "T13/FllImporter.extract_key_value")
 mutant("c14-last-block-dropped", "C14", (I, """        if component and block:
             self._process(component, block, engine)
         return engine""", """        return engine"""), "T13/FllImporter.engine/flush")
 mutant("c13-clear-keeps-value", ["C13", "C12"], (V, "        self.previous_value = nan\n        self.value = nan\n\n    def fuzzy_value", "        self.previous_value = nan\n\n    def fuzzy_value"), "OutputVariable.clear/value")
-mutant("seed-c19-counter-overwritten", "C19", (E, "                        mamdani_consequents += isinstance(", "                        mamdani_consequents = isinstance("), "C1-acc/Engine.is_ready/mamdani_consequents")
+mutant("seed-c19-counter-overwritten", "C19", (E, "                        mamdani_consequents += isinstance(", "                        mamdani_consequents = isinstance("), "C1/Engine.is_ready/implication")
 mutant("seed-c19-conjunction-last-rule-only", "C19", (E, 'conjunction_needed += f" {Rule.AND} " in rule.antecedent.text', 'conjunction_needed = f" {Rule.AND} " in rule.antecedent.text'), "Engine.is_ready")
 mutant("seed-c18-int-plus-strict", "C18", [(X, "k = max(1, round(pow(values, (1.0 / inputs))))", "k = max(1, int(pow(values, (1.0 / inputs))))"), (X, "while (k + 1) ** inputs <= values:", "while (k + 1) ** inputs < values:")], "N1/")
 mutant("seed-c16-unload-after-tokenising", "C16", (R, """        self.unload()
@@ -1354,7 +1436,7 @@ mutant("seed-c16-unload-after-tokenising", "C16", (R, """        self.unload()
         postfix = Function.infix_to_postfix(self.text)
         self.unload()
 """), "O9/Antecedent.load/unload-first")
-mutant("seed-c20-skip-unchanged", "C20", (L, "        rollback_settings = vars(self).copy()\n        for key, value in context_settings.items():\n            setattr(self, key, value)", "        rollback_settings = vars(self).copy()\n        context_settings = {key: value for key, value in context_settings.items() if rollback_settings[key] != value}\n        for key, value in context_settings.items():\n            setattr(self, key, value)"), "Y4/Settings.context/named-keys")
+mutant("seed-c20-skip-unchanged", "C20", (L, "        rollback_settings = vars(self).copy()\n        for key, value in context_settings.items():\n            setattr(self, key, value)", "        rollback_settings = vars(self).copy()\n        context_settings = {key: value for key, value in context_settings.items() if rollback_settings[key] != value}\n        for key, value in context_settings.items():\n            setattr(self, key, value)"), "Y-sem/Settings.context/restored")
 mutant("seed-c14-rule-block-without-engine", "C14", (I, "            rule_block = self.rule_block(self.separator.join(block), engine)", "            rule_block = self.rule_block(self.separator.join(block))"), "T14/FllImporter._process->rule_block")
 mutant("seed-c14-term-no-update-reference", "C14", (I, "        term.update_reference(engine)\n        return term", "        return term"), "T")
 mutant("seed-c15-maxlist-not-lifted", "C15", (L, "        self.maxlist *= increase_factor\n", ""), "R11/Representation.__init__/maxlist")
